@@ -109,7 +109,7 @@ Qed.
 Lemma perm_apply_map : forall (A B : Type) (f : A -> B) sp (l : list A),
   perm_apply sp (map f l) = map f (perm_apply sp l).
 Proof.
-  intros A B f [k r] l. unfold perm_apply, rotl. cbn [fst snd].
+  intros A B f [k r] l. unfold perm_apply, rotl. cbn [fst snd]. rewrite <- !rev_alt.
   destruct k; rewrite map_app, <- ?map_rev, skipn_map, firstn_map; reflexivity.
 Qed.
 
@@ -129,7 +129,7 @@ Qed.
 
 Lemma perm_apply_perm : forall (A : Type) sp (l : list A), Permutation (perm_apply sp l) l.
 Proof.
-  intros A [k r] l. unfold perm_apply, rotl. cbn [fst snd].
+  intros A [k r] l. unfold perm_apply, rotl. cbn [fst snd]. rewrite <- rev_alt.
   set (m := if k then rev l else l).
   apply perm_trans with m.
   - apply perm_trans with (firstn r m ++ skipn r m); [apply Permutation_app_comm|now rewrite firstn_skipn].
